@@ -1,5 +1,6 @@
 """C07 - boot storage images place each installed envelope intact in its role's slot (DESIGN.md section 5, C07)."""
 import os
+import zlib
 import shutil
 
 from .. import core, drive
@@ -342,6 +343,14 @@ def run_case(rec, case):
                 with open(f2, "wb") as fh:
                     fh.write(E)
                 files.insert(r.randrange(0, len(files)), f2)
+        if _earlier and zlib.crc32(f"earlier/{case['n']}".encode()) % 4 == 0:
+            # the output directory still holds this set's domain files from an EARLIER run (other envelopes, other base
+            # address), dated in the future: they must be replaced, not kept as "up to date" and not merged into
+            for dom in sorted({L.DOMAIN[role] for role, _, _ in placed}):
+                if dom in _earlier:
+                    drive.make_stale(os.path.join(outdir, f"suit_installed_envelopes_{dom}_merged.hex"), _earlier[dom],
+                                     future=True)
+                    rec.count("output-directory-holds-domain-files-of-an-earlier-run")
         before = effects.snapshot(outdir)
         with effects.watch() as w:
             exc = run_boot(route, files, outdir, base, kconfig, soc, wd)
@@ -377,13 +386,23 @@ def run_case(rec, case):
         if exc is not None:
             rec.violation("boot-refused", f"image boot refused a valid set: {common.exc_text(exc)}", full)
             return
-        for mech, text in check_output(outdir, placed, soc, base):
+        bad = check_output(outdir, placed, soc, base)
+        for mech, text in bad:
             rec.violation(mech, text, full)
+        if not bad:
+            for dom in L.DOMAINS:
+                p_ = os.path.join(outdir, f"suit_installed_envelopes_{dom}_merged.hex")
+                if os.path.exists(p_):
+                    with open(p_, "rb") as fh:
+                        _earlier[dom] = fh.read()
     finally:
         shutil.rmtree(indir, ignore_errors=True)
         shutil.rmtree(outdir, ignore_errors=True)
         if kconfig and os.path.exists(kconfig):
             os.unlink(kconfig)
+
+
+_earlier = {}
 
 
 def make_case(seed, n):
